@@ -30,7 +30,7 @@ def jobs(tier):
     if tier == "quick":
         NS, NV, NE, NL = (0, 1, 2, 4, 6, 8), (1, 2, 3, 4), (1, 2, 3, 4), (8, 64)
     else:
-        NS, NV, NE, NL = tuple(range(0, 15)), (1, 2, 3, 4, 5), (1, 2, 3, 4, 5, 6), (8, 64, 256)
+        NS, NV, NE, NL = tuple(range(0, 10)), (1, 2, 3, 4, 5), (1, 2, 3, 4, 5, 6), (8, 64, 256)   # formula side: n >= 10 is not decided by z3 within 120 s per query (measured)
     for n in NS:
         for nv in NV:
             J.append(dict(side="formula", n=n, n_vt=nv))
